@@ -165,8 +165,9 @@ def coq_make(targets, timeout=900, jobs=8):
                 ["coq_makefile", "-f", "_CoqProject", "-o", "Makefile.coq"],
                 cwd=COQ, check=True, capture_output=True,
             )
-        cmd = ["timeout", str(timeout), "make", "-f", "Makefile.coq", "-j%d" % jobs] + list(targets)
-        p = subprocess.run(cmd, cwd=COQ, capture_output=True, text=True)
+        cmd = "ulimit -s unlimited 2>/dev/null; exec timeout %d make -f Makefile.coq -j%d %s" % (
+            timeout, jobs, " ".join(targets))
+        p = subprocess.run(["bash", "-c", cmd], cwd=COQ, capture_output=True, text=True)
         return p.returncode == 0, p.stdout[-6000:] + p.stderr[-6000:]
 
 
